@@ -438,3 +438,70 @@ def hdf5_topology(ctx, case):
            [x for x in range(len(gat)) if gat[x] is b.fields["_tuple"][1]][0]) for b in got.fields["_bonds"]]
     ctx.ensure("bonds:same-index-pairs-in-order", gb == [(i, j) for (i, j, _t, _o) in bonds])
     ctx.ensure("bonds-join-the-result's-own-atoms", all(any(a is x for x in gat) for b in got.fields["_bonds"] for a in b.fields["_tuple"]))
+
+
+# ---- carrier: pandas DataFrame (to_dataframe -> from_dataframe) ---------------------------------------------------------------
+class _DF:
+    """the part of pandas.DataFrame the two functions use: rows of a table with named columns and a 0..n-1 index"""
+
+    def __init__(self, data, columns):
+        self.columns = list(columns)
+        self.rows = [dict(zip(self.columns, r)) for r in data]
+        import numpy as _np
+
+        self.index = _np.arange(len(self.rows))
+
+    def __len__(self):
+        return len(self.rows)
+
+    def __setitem__(self, col, val):
+        if col not in self.columns:
+            self.columns.append(col)
+        for r in self.rows:
+            r[col] = val
+
+    def iterrows(self):
+        return [(i, r) for i, r in enumerate(self.rows)]
+
+
+@contract("C04", "mdtraj/core/topology.py", "Topology.to_dataframe;from_dataframe", cases=["distinct-residues", "same-residue-label-across-the-chain-boundary"], replay="topology",
+          max_paths=400)
+def top_dataframe(ctx, case):
+    """view(from_dataframe(*to_dataframe(t))) == view(t) up to the chain ids (the table stores the chain INDEX): same chains, residues
+    (name, resSeq, segment id), atoms (name, element, serial) and bonds with type and order; also when the last residue of a chain and the
+    first residue of the next chain carry the same name and resSeq."""
+    mod, elems = setup(ctx)
+    sym = {e.symbol: e for e in elems.values()}
+    ctx.interp.import_models["mdtraj.core"]._attrs["element"]._attrs["get_by_symbol"] = lambda s: sym[s]
+    mod.globals["import_"] = lambda name: Namespace("pandas", DataFrame=_DF)
+    top, view, bonds, atoms = build(ctx, mod, elems, "a")
+    # bonds carry the module's own type objects (float(type) is their code)
+    g = mod.globals
+    types = [g["Single"], None, g["Double"], g["Amide"]]
+    orders = [2, None, 1, 3]  # chosen so that no order equals int(code of the bond's type)
+    for b, t, o in zip(top.fields["_bonds"], types, orders):
+        b.fields["type"], b.fields["order"] = t, o
+    bonds = [(i, j, t, o) for (i, j, _, _), t, o in zip(bonds, types, orders)]
+    if case != "distinct-residues":
+        # chain 0 ends with a residue labelled like the first residue of chain 1
+        r_last = top.fields["_chains"][0].fields["_residues"][-1]
+        r_first = top.fields["_chains"][1].fields["_residues"][0]
+        r_first.fields["name"] = r_last.fields["name"]
+        r_first.fields["resSeq"] = r_last.fields["resSeq"]
+        view = view_of(top)
+    out = ctx.call_method(top, "to_dataframe")
+    ctx.ensure("to_dataframe:no-exception", not out.raised)
+    if out.raised:
+        return
+    atoms_df, bonds_arr = out.value
+    back = ctx.call(mod.globals["Topology"].lookup("from_dataframe"), atoms_df, bonds_arr) if False else ctx.call_method(mod.globals["Topology"], "from_dataframe", atoms_df, bonds_arr)
+    ctx.ensure("from_dataframe:no-exception" + (f"({back.exc.inst!r})"[:120] if back.raised else ""), not back.raised)
+    if back.raised:
+        return
+    r = back.value
+    got, want = view_of(r), view
+    strip = lambda v: [("<chain>", c[1]) for c in v]
+    ensure_view(ctx, "view(from_dataframe(to_dataframe(t)))==view(t)(chain-ids-aside)", strip(got), strip(want))
+    ensure_bonds(ctx, "dataframe", r, bonds)
+    ensure_wf(ctx, "dataframe", r)
+    ctx.ensure("source-unchanged", view_of(top) == view)
